@@ -319,7 +319,7 @@ fn genesis_block_corner(run: &Run, pools: &[rayon::ThreadPool]) {
     let f = tx_t(TxKind::Faucet, vec![], vec![out_t(77, Denom::Mel)], 0, vec![3]);
     let sealed_dummy = w.genesis.clone().seal(None);
     let model = model_of(&sealed_dummy, &[zz], &[], &[]);
-    let base = Node { real: Real::Open(u.clone()), model: crate::refstf::RefState { height: 0, ..model }, path: std::sync::Arc::new(vec!["genesis-block(height 0, header-reading covenant)".into()]), trace: std::sync::Arc::new(vec![json!({"root": "height-0 genesis with a header-reading covenant"})]), lineage: std::sync::Arc::new(vec![]), salt: 0 };
+    let base = Node::new_root(Real::Open(u.clone()), crate::refstf::RefState { height: 0, ..model }, "genesis-block(height 0, header-reading covenant)".to_string(), json!({"root": "height-0 genesis with a header-reading covenant"}), vec![]);
     let all = vec![("a".to_string(), a), ("b=spend(a.0)".to_string(), b), ("c=spend(a.1)".to_string(), c), ("faucet".to_string(), f)];
     for mask in 1u32..(1 << all.len()) {
         let names: Vec<String> = (0..all.len()).filter(|i| mask & (1 << i) != 0).map(|i| all[i].0.clone()).collect();
